@@ -52,7 +52,7 @@ def tables_c16(out, notes):
         fresh = CellParser()
         try:
             r = fresh.parse_as_string(template, ctx)
-        except (Crit, Exception):
+        except (Crit, Exception, SystemExit):
             return "ProbeError"
         try:
             import jinja2
